@@ -356,3 +356,11 @@ func TestPinnedTree(t *testing.T) {
 		t.Errorf("output differs from tools/factgen/golden/c03/C03.lean (regenerate the golden copy if the change is intended)")
 	}
 }
+
+func TestOrientation(t *testing.T) {
+	a := `func f(shouldRelease bool) error { if !shouldRelease { return reserve() } else { return release() } }`
+	b := `func f(shouldRelease bool) error { if shouldRelease { return release() }; return reserve() }`
+	same(t, "inverted two-way return", a, b, none)
+	c := `func f(shouldRelease bool) error { if shouldRelease { return reserve() }; return release() }`
+	differ(t, "swapped actions", b, c, none)
+}
